@@ -19,7 +19,9 @@
  * to access) is a verdict about that code: the history of the schedule is "CRASH-<what>", exploration of the program
  * stops there (as for a livelock), the results are printed followed by "CRASHED <id>" and the process exits with
  * status 4 because its memory can no longer be trusted; the caller runs the remaining programs in a new process.
- * A fault anywhere else kills the process by the signal (= harness error).
+ * A fault anywhere else kills the process by the signal (= harness error).  The same holds for an instrumented write or
+ * read-modify-write access to memory that is neither private to the running thread nor one of the objects of the program ("CRASH-WILD", taken
+ * before the instruction executes): everything a body can legitimately write is re-initialised for every run.
  *
  * Guard bytes.  Every atomic object and every expected-value object of a compare-exchange is surrounded by guard
  * bytes (0xA5) that nothing may write: the aggregate the atomic object lives in plus extra guard objects named by
@@ -98,8 +100,9 @@ static long final_val;
 #define MAXREG 8
 #define PRIVSZ 64
 /* tag: 1 expected-value object in [hole, hole+holesz), 2 / 3 guard object declared before / after an expected-value
-   object (no hole), 4 / 5 / 6 the same for an atomic object */
-struct region { unsigned char *base, *hole; long size, holesz; int tag; };
+   object (no hole; ref = address of that object: which side of it the guard lies on is decided by the addresses, the
+   order of definition says nothing about the layout), 4 / 5 / 6 the same for an atomic object */
+struct region { unsigned char *base, *hole, *ref; long size, holesz; int tag; };
 static struct region regs[MAXT][MAXREG], gregs[MAXREG];
 static int nregs[MAXT], ngregs;
 static unsigned char vp_priv[MAXT][PRIVSZ] __attribute__((aligned(64)));   /* thread-private static memory */
@@ -133,7 +136,7 @@ static void check_region(const struct region *r) {
     unsigned char *p = r->base + i;
     if (r->hole && p >= r->hole && p < r->hole + r->holesz) continue;
     if (*p == FILL) continue;
-    int after = r->hole ? p >= r->hole + r->holesz : (r->tag == 3 || r->tag == 6);
+    int after = r->hole ? p >= r->hole + r->holesz : r->ref ? p > r->ref : (r->tag == 3 || r->tag == 6);
     snprintf(guard_flag, sizeof guard_flag, "%c-%s", r->tag <= 3 ? 'E' : 'O', after ? "after" : "before");
   }
 }
@@ -239,12 +242,16 @@ static void thread_exit(void) {
 }
 
 static void add_region(struct region *tab, int *n, long tag, void *base, long size, void *hole, long holesz) {
-  unsigned char *b = base, *h = hole;
+  unsigned char *b = base, *h = hole, *ref = 0;
   if (*n >= MAXREG) die("too many guard regions");
+  if (tag != 1 && tag != 4) {           /* whole guard object: hole names the object it guards */
+    if (holesz || (h && h >= b && h < b + size)) die("bad guard region");
+    ref = h; h = 0;
+  }
   if (tag < 1 || tag > 6 || size < 1 || size > 512 || (h && (h < b || holesz < 1 || h + holesz > b + size)) || (!h && holesz))
     die("bad guard region");
   struct region *r = &tab[(*n)++];
-  r->base = b; r->size = size; r->hole = h; r->holesz = h ? holesz : 0; r->tag = tag;
+  r->base = b; r->size = size; r->hole = h; r->holesz = h ? holesz : 0; r->tag = tag; r->ref = ref;
   peeking = 1;                         /* a fault here means the body handed over a wild address: its fault */
   for (long i = 0; i < size; i++)
     if (!h || b + i < h || b + i >= h + holesz) b[i] = FILL;
@@ -290,6 +297,20 @@ static uint64_t peek(uint64_t addr, int size) {
   return v;
 }
 
+static void body_crashed(const char *what);
+
+/* Shared memory a body may touch: the arena, the aggregate of the atomic object and its guard objects, and (mode 1) the
+   stack of the parent thread that owns the object.  All of it is re-initialised for every run, so no run can leak
+   state into the next one.  A write or read-modify-write anywhere else is a wild access of the code under test: a
+   verdict, taken BEFORE the instruction executes. */
+static int legit_shared(uint64_t addr, uint64_t n) {
+  if (addr >= (uint64_t)arena && addr + n <= (uint64_t)arena + sizeof arena) return 1;
+  for (int i = 0; i < ngregs; i++)
+    if (addr >= (uint64_t)gregs[i].base && addr + n <= (uint64_t)gregs[i].base + gregs[i].size) return 1;
+  if (prog.mode == 1 && addr >= (uint64_t)stacks[0] && addr + n <= (uint64_t)stacks[0] + STACKSZ) return 1;
+  return 0;
+}
+
 /* called from the __vp_* stubs (on the virtual thread's stack) */
 void vp_access(uint64_t addr, unsigned ks, uint64_t pc) {
   if (cur < 0) return;
@@ -303,6 +324,9 @@ void vp_access(uint64_t addr, unsigned ks, uint64_t pc) {
     if (addr >= lo && addr < lo + PRIVSZ) return;         /* private static memory (vp_static) */
   }
   in_runtime = 1;
+  /* reads of other memory (constants a compiler may keep in .rodata) are harmless: nothing ever writes there */
+  if ((kind == K_WRITE || kind == K_LOCKED || kind == K_UNLOCKED || kind == K_CMPX_W) && !legit_shared(addr, size ? size : 1))
+    body_crashed("WILD");
   if (on_object && size && !unlocked_flag[0] && (kind == K_UNLOCKED || kind == K_CMPX_R))
     snprintf(unlocked_flag, sizeof unlocked_flag, "%s%d", kind == K_UNLOCKED ? "rmw" : "cmpxchg", size);
   sched_point();
@@ -400,7 +424,7 @@ static void run_once(void) {
     if (obj_size < 1 || obj_size > 8 || obj_addr < agg_addr || obj_addr + obj_size > agg_addr + agg_size) die("bad object geometry");
     add_region(gregs, &ngregs, 4, agg_addr, agg_size, obj_addr, obj_size);
     for (long k = 0, n = info(arena, 6); k < n; k++)       /* guard objects declared next to the atomic object */
-      add_region(gregs, &ngregs, info(arena, 12 + 3 * k), (void *)info(arena, 10 + 3 * k), info(arena, 11 + 3 * k), 0, 0);
+      add_region(gregs, &ngregs, info(arena, 12 + 3 * k), (void *)info(arena, 10 + 3 * k), info(arena, 11 + 3 * k), obj_addr, 0);
     memcpy(obj_addr, &prog.init, obj_size);
   } else {
     obj_addr = agg_addr = 0; obj_size = agg_size = 0; obj_base = 0;
